@@ -3,8 +3,10 @@
 
    entry  ::= [kind, name, [entry...]]     kind 0 File, 1 Dir, 2 SymFile, 3 SymDir (list = target content)
    opts   ::= [file, dir, follow, hidden]
-   roots  ::= [[root, [entry...]] ...] *)
-From Fzf Require Import Prelude Val WalkSpec WalkModel.
+   roots  ::= [[root, [entry...]] ...]
+   gent   ::= [kind, name, id]             kind 0 GFile, 1 GDir, 2 GSymFile, 3 GSymDir (id = directory number)
+   gworld ::= [[id, [gent...]] ...] *)
+From Fzf Require Import Prelude Val WalkSpec WalkModel WalkLinkSpec.
 Open Scope Z_scope.
 
 Fixpoint as_entry (v : val) : entry :=
@@ -45,10 +47,36 @@ Definition d_fn (a : val) : val :=
   | Err _ => verr
   end.
 
+(* 1906 finite unfolding of a world with link cycles: [fuel, [ids on the way...], id, gworld] -> [1, [entry...]] | verr *)
+Definition as_gent (v : val) : gent :=
+  let k := as_int (arg v 0) in
+  if k =? 1 then GDir (as_str (arg v 1)) (as_nat (arg v 2))
+  else if k =? 3 then GSymDir (as_str (arg v 1)) (as_nat (arg v 2))
+  else if k =? 2 then GSymFile (as_str (arg v 1))
+  else GFile (as_str (arg v 1)).
+Definition as_gworld (v : val) : gworld :=
+  map (fun b => (as_nat (arg b 0), map as_gent (as_list (arg b 1)))) (as_list v).
+
+Fixpoint of_entry (e : entry) : val :=
+  match e with
+  | File nm => VL [VI 0; vstr nm; VL []]
+  | Dir nm ch => VL [VI 1; vstr nm; VL (map of_entry ch)]
+  | SymFile nm => VL [VI 2; vstr nm; VL []]
+  | SymDir nm tg => VL [VI 3; vstr nm; VL (map of_entry tg)]
+  end.
+
+Definition d_unfold (a : val) : val :=
+  let g := as_gworld (arg a 3) in
+  match unfold (as_nat (arg a 0)) g (map as_nat (as_list (arg a 1))) (content g (as_nat (arg a 2))) with
+  | Some t => VL [VI 1; VL (map of_entry t)]
+  | None => verr
+  end.
+
 Definition dispatch_walk (op : Z) (a : val) : option val :=
   if op =? 1901 then Some (d_model a)
   else if op =? 1902 then Some (d_spec a)
   else if op =? 1903 then Some (vstr (trim_path (as_str a)))
   else if op =? 1904 then Some (d_fn a)
   else if op =? 1905 then Some (vstr (display (as_str a)))
+  else if op =? 1906 then Some (d_unfold a)
   else None.
